@@ -25,6 +25,40 @@ def pair_first(r):
     return None, None
 
 
+def always_returns(n):
+    """every path through statement n ends in a return"""
+    if n is None:
+        return False
+    if n.k == 'ReturnStmt':
+        return True
+    if n.k == 'CompoundStmt':
+        return bool(n.c) and always_returns(n.c[-1])
+    if n.k == 'IfStmt':
+        return always_returns(n.child('then')) and always_returns(n.child('else'))
+    return False
+
+
+def notification_not_blocked(chk, facts):
+    Q2 = 'bluetoe::details::notification_queue_impl::'
+    chk.rule('notification-not-blocked', 'both dequeue implementations: a pending notification of an entry is returned unless something else is returned for that entry - every `if` whose else branch '
+             'holds the `return {notification, ..}` returns on all paths of its then branch (a held-back indication does not hide the notification)', floor=2)
+    for fn in variants(facts, Q2 + 'dequeue_indication_or_confirmation', chk):
+        for r in fn.returns():
+            first, il = pair_first(r)
+            if first is None or first.n != 'notification':
+                continue
+            bad = None
+            for a, br in enclosing_ifs(r):
+                if br == 'else' and not always_returns(a.child('then')):
+                    bad = a
+            # the notification test itself
+            g = [c for c, o in must_hold(r) if o is True and any(x.k in REF_KINDS and x.n == 'notification_bit' for x in c.walk())]
+            ok = bad is None and bool(g)
+            chk.instance('notification-not-blocked', fn, 'return {notification, ..} (impl at line %d)' % fn.line, ok,
+                         '' if ok else ('the notification is only considered when (%s) is false, but that branch does not always dequeue something: a pending notification stays in the queue while an indication of the same characteristic waits for a confirmation' % bad.child('cond').text()[:70]
+                                        if bad is not None else 'the notification return is not selected by the notification bit'), node=r, key='notification@%s' % ('single' if fn.line > 280 else 'general'))
+
+
 KINDS = {'empty', 'notification', 'indication'}
 
 
@@ -91,6 +125,7 @@ def run(chk, facts, tier):
     chk.rule('unsent-indication-released', 'server::l2cap_output: a dequeued indication is either transmitted or released again with indication_confirmed(); indication_confirmed() is called there only for an '
              'indication that was not transmitted (never for a notification, never after the PDU was produced)', floor=1)
     output_paths(chk, facts)
+    notification_not_blocked(chk, facts)   # "while notifications may continue"
     chk.rule('indication-needs-no-outstanding', 'every return of {indication, ..} in a queue implementation is control dependent on outstanding_confirmation == no_outstanding_indicaton, '
              'stores outstanding_confirmation on that path and removes the indication bit', floor=2)
     chk.rule('outstanding-writers', 'notification_queue::outstanding_confirmation_index_ is reset only by indication_confirmed(), clear_indications_and_confirmations() and the constructor, and is passed by reference only to impl::dequeue', floor=3)
